@@ -17,7 +17,8 @@ TECHNIQUE = (
     "runtime reference-model monitor: every reply of the real RandomUDSServer (via UDSServerTransport.handle_request) and its "
     "state after every request are compared online with an executable model of the ISO 14229-1 default response chain, "
     "over generated models, request histories, exhaustive short requests and behaviour-switch subsets, the subsets both given at "
-    "construction and written to the public behavior attribute of a live ECU in the middle of a history"
+    "construction and written to the public behavior attribute of a live ECU in the middle of a history, while further ECUs that nobody "
+    "reconfigures live in the same process and are judged by their own switches"
 )
 LEVEL_TEXT = (
     "Exploration: real virtual ECUs (seeds x randomness parameter sets incl. empty/full lists) are driven in-process with request "
@@ -29,6 +30,12 @@ LEVEL_TEXT = (
     "back to the construction-time subset, all on, all changed, random subset; written either switch by switch on server.behavior or "
     "by assigning a new Behavior object), keeping session / security / seed state; after each change the request classes every "
     "single rule decides plus a further history are judged by the chain minus the switches that are off at that moment. "
+    "Beside every live-reconfigured ECU (every other defaults one is constructed without any behaviour argument and first changed in place) "
+    "further ECUs with their own models and traffic stay alive - one constructed without behaviour argument, one with a Behavior object of "
+    "its own, one created only after the first change - and after each change of the other ECU's switches they are probed and judged by "
+    "the full chain and their own state. Edge of the model: every history under a subset without rule 3 (construction-time or live) may "
+    "change to any session of the model and ends with a session change to a session id the model does not contain (with / without "
+    "suppress bit): reply, session state after it and - with rule 1 off too - the 22 F1 86 read-back are judged, then the history stops. "
     "Held = held on those executions."
 )
 LEVEL_NOTE = (
@@ -40,14 +47,19 @@ RULE = (
     "history prefix, request); histories of 200-2000 requests "
     "from the shared request generator, plus exhaustive sweeps: all 256 one-byte and 65536 two-byte requests and sampled three-byte "
     "requests per swept state; live-reconfiguration histories = 120-300 requests, then 8-16 x (switch change, 256 one-byte + 250-600 "
-    "two-byte + rule-5 probes, 120-300 requests); non-trivial = request answered by rules 1-6 with a rule other than 'unknown everywhere'; distinct = "
+    "two-byte + rule-5 probes, 120-300 requests), each switch change followed by ~80 requests to each of 2-3 untouched ECUs living beside, "
+    "and a last change to a subset without rule 3 followed by a session change to a session id outside the model; non-trivial = request answered by rules 1-6 with a rule other than 'unknown everywhere'; distinct = "
     "distinct (model, switches, state, request)"
 )
 ASSUMPTIONS = [
     "appendix D rule chain; handler-level answers are only required to be a positive reply of that service or a negative reply naming it "
     "(plus exact expectations for session change, session read, tester present, ECU reset, seed/key sequencing)",
-    "with default_response_if_sub_function_not_supported switched off, DiagnosticSessionControl requests are restricted to sessions the model offers "
-    "(the statement does not define an ECU inside a session it does not offer)",
+    "with default_response_if_sub_function_not_supported switched off, a DiagnosticSessionControl request to a session id that the model does not "
+    "contain is judged (reply 50 xx / suppressed, session state xx afterwards: 'disabling one behaviour only removes that rule', 'session state "
+    "changes exactly on the positive replies') but ends its history: the statement does not define an ECU inside a session it does not offer - "
+    "except the 22 F1 86 read-back, which rule 5 answers with the active session independently of the model (asked only when rule 1 is off too)",
+    "ECUs in one process are independent: the switch subset of an ECU is what it was constructed with plus what was written to ITS behavior "
+    "attribute; the statement's 'with its default behaviours enabled' holds for an ECU nobody reconfigured, whatever was done to another one",
     "'disabling one behaviour' covers a switch written to the public UDSServer.behavior attribute (or a new Behavior object assigned to it) "
     "of an ECU that has already answered requests: the statement names no moment at which the subset has to be chosen, and the state "
     "reached by the history so far stays in force",
@@ -94,6 +106,15 @@ def required_reach(tier: str) -> dict[str, int]:
         "reconf.one-switch": 10, "reconf.several-switches": 10, "reconf.back-to-construction-setting": 3,
         "reconf.in-non-default-session": 3, "reconf.decided-differently-than-at-construction": 1000,
         "#reconf.effective-switch:": 9, "#reconf.effective:": 15,
+        # two more live ECUs beside every reconfigured one (constructed without behaviour argument / with their own Behavior object /
+        # created only after the reconfiguration), judged by their own switches after each change of the other ECU's switches
+        "bystander.probed-after-reconf": 100, "bystander.kind:omitted": 30, "bystander.kind:own-object": 30, "bystander.kind:omitted-late": 30,
+        "bystander.created-after-reconf": 6, "bystander.probed-again": 50, "bystander.beside-omitted-ecu-changed-in-place": 3,
+        "bystander.decided-differently-than-reconfigured-ecu": 1000, "bystander.left-in-non-default-session": 5,
+        # rule 3 off: session change to a session id at the edge of the model (state judged after the positive / suppressed reply)
+        "edge.dsc-to-session-absent-from-model": 10, "edge.dsc-absent:answered": 3, "edge.dsc-absent:suppress-bit": 3,
+        "edge.dsc-absent.read-back": 2, "edge.dsc-absent.live": 3, "edge.dsc-to-unoffered-session-of-model": 3,
+        "edge.dsc-absent.from-non-default-session": 3,
     }
 
 
@@ -123,6 +144,94 @@ def reconfigure(d: vecu.Driver, how: str, off_before: frozenset[str], off_after:
     d.switches = vecu.all_switches(off_after)
 
 
+RULE3 = "default_response_if_sub_function_not_supported"
+RULE1 = "default_response_if_service_not_supported"
+READ_BACK = b"\x22\xf1\x86"
+
+
+def make_driver(seed: Any, rp: dict[str, Any], switches: dict[str, bool], construct: str = "vecu") -> vecu.Driver:
+    """vecu.Driver whose real server was constructed in the given way: "vecu" = the shared helper's choice (behaviour passed as
+    None / Behavior() / spelled out), "omitted" = the behaviour argument left out altogether (RandomUDSServer(seed) or
+    RandomUDSServer(seed, parameters): the constructor's own defaults), "own-object" = a Behavior() built for this one server.
+    The last two only exist for the documented defaults (every switch on)."""
+    d = vecu.Driver(seed, rp, switches)
+    if construct == "vecu":
+        return d
+    from gallia.services.uds.server import RandomUDSServer, UDSServer, UDSServerTransport
+    from gallia.transports import TargetURI
+
+    assert all(switches.values()), "constructor defaults = all default behaviours enabled"
+    if construct == "omitted":
+        srv = RandomUDSServer(seed, RandomUDSServer.RandomnessParameters(**rp)) if rp else RandomUDSServer(seed)
+    elif construct == "own-object":
+        srv = RandomUDSServer(seed, RandomUDSServer.RandomnessParameters(**rp) if rp else None, UDSServer.Behavior())
+    else:
+        raise ValueError(construct)
+    d.server = srv
+    d.transport = UDSServerTransport(srv, TargetURI("tcp-lines://127.0.0.1:1"))
+    return d
+
+
+class Bystander:
+    """a second virtual ECU that lives in the same process as a reconfigured one, has its own model and traffic, and is never
+    touched by the harness except for sending it requests: it keeps the switches it was constructed with (all on)"""
+
+    def __init__(self, d: vecu.Driver, kind: str, cfg: dict[str, Any]):
+        self.d, self.kind, self.cfg = d, kind, cfg
+        self.last_active = vecu.CLOCK.t  # harness's own record of when this ECU was last spoken to (10 s inactivity reset)
+        self.probes = 0
+
+
+async def new_bystander(seed: str, rp: int, kind: str) -> Bystander:
+    d = make_driver(seed, vecu.PARAM_SETS[rp], vecu.all_switches(), "own-object" if kind == "own-object" else "omitted")
+    await d.setup()
+    return Bystander(d, kind, {"server_seed": seed, "rp": rp, "off": [], "bystander": kind})
+
+
+def bystander_probes(ctx: Any, d: vecu.Driver) -> Any:
+    """traffic of an untouched ECU: the request classes each single rule decides (as in probes(), smaller), in whatever state the
+    ECU's own earlier traffic has left it"""
+    rng = ctx.rng
+    m = d.model
+    assert m is not None
+
+    def offered(sid: int) -> list[int]:
+        return m.M.get(m.S, {}).get(sid) or []
+
+    yield from (b"\x3e\x00", b"\x3e\x80", READ_BACK)
+    if offered(0x10):
+        yield bytes([0x10, rng.choice(offered(0x10)) | rng.choice([0, 0x80])])
+        yield READ_BACK
+    for _ in range(24):
+        yield bytes([rng.choice(sorted(m.M.get(m.S, {}))) if m.M.get(m.S) and rng.random() < 0.5 else rng.randrange(256)])
+    for _ in range(48):
+        sid = rng.choice(sorted(m.M.get(m.S, {}))) if m.M.get(m.S) and rng.random() < 0.6 else rng.randrange(256)
+        sf = rng.choice(offered(sid)) | rng.choice([0, 0x80]) if offered(sid) and rng.random() < 0.5 else rng.randrange(256)
+        yield bytes([sid, sf]) + (rng.randbytes(rng.choice([0, 0, 1, 2])))
+    yield from (b"\x3e\x80", b"\x3e\x00")
+
+
+async def probe_bystanders(ctx: Any, bystanders: list[Bystander], beside: dict[str, Any], main_sw: dict[str, bool]) -> None:
+    """after the switch subset of one ECU was changed: every other live ECU answers by ITS switches and ITS state"""
+    for b in list(bystanders):
+        bm = b.d.model
+        assert bm is not None
+        if vecu.CLOCK.t - b.last_active > 10:
+            bm.reset()  # the tester of this ECU was silent for more than 10 s meanwhile
+            ctx.reach("bystander.after-inactivity")
+        ok = await drive(ctx, b.d, bystander_probes(ctx, b.d), f"bystander:{b.kind}", {**b.cfg, "beside": beside}, contrast_sw=main_sw)
+        b.last_active = vecu.CLOCK.t
+        b.probes += 1
+        ctx.reach("bystander.probed-after-reconf")
+        ctx.reach(f"bystander.kind:{b.kind}")
+        if b.probes > 1:
+            ctx.reach("bystander.probed-again")
+        if bm.S != 1:
+            ctx.reach("bystander.left-in-non-default-session")
+        if not ok:
+            bystanders.remove(b)
+
+
 def rule_under(pre: vecu.VecuModel, sw: dict[str, bool], q: bytes, raw: bool, reply: bytes | None) -> str:
     """which rule of the reference chain decides `q` in model state `pre` if the switches were `sw` (pre is not modified)"""
     shadow = copy.copy(pre)
@@ -130,8 +239,11 @@ def rule_under(pre: vecu.VecuModel, sw: dict[str, bool], q: bytes, raw: bool, re
     return shadow.check(q, raw, reply).rule
 
 
-async def drive(ctx: Any, d: vecu.Driver, requests: Any, tag: str, cfg: dict[str, Any]) -> bool:
-    """feed requests; returns False if the server raised (driver unusable afterwards)"""
+async def drive(ctx: Any, d: vecu.Driver, requests: Any, tag: str, cfg: dict[str, Any], bystanders: list[Bystander] | None = None,
+                contrast_sw: dict[str, bool] | None = None) -> bool:
+    """feed requests; returns False if the server raised (driver unusable afterwards).
+    bystanders: other live ECUs, probed (and judged by their own switches) after every reconfiguration of this one;
+    contrast_sw: switch setting of another ECU in the process (reach attribution only)"""
     m = d.model
     assert m is not None
     last_seed = None
@@ -141,12 +253,19 @@ async def drive(ctx: Any, d: vecu.Driver, requests: Any, tag: str, cfg: dict[str
     off_now: frozenset[str] = frozenset(cfg.get("off", []))
     last_marker: bytes | None = None
     reconfs = 0
+    assigned = False  # a new Behavior object was given to this ECU (it no longer holds the one from its construction)
+    in_place: list[str] | None = None  # the subset last written on the Behavior object this ECU got at construction
+    outside = False  # the active session is a session id the model does not contain
 
     def tail() -> list[bytes]:
         t = hist[-30:]
         return t if last_marker is None or last_marker in t else [last_marker] + t
 
     for q in requests:
+        if outside and not (q == READ_BACK and not m.sw["service_not_supported"] and m.sw["session_read"]):
+            # the statement does not define the ECU inside a session it does not offer - except for the session read-back, which
+            # rule 5 answers with the active session whatever the model is (provided rule 1 does not consult the model first)
+            return True
         if isinstance(q, tuple) and q[0] == "RECONF":
             # ("RECONF", how, switches now off): the switch subset of the LIVE ECU is changed through its public `behavior`
             # attribute; session, security level and seed memory stay what the history so far made them
@@ -181,6 +300,20 @@ async def drive(ctx: Any, d: vecu.Driver, requests: Any, tag: str, cfg: dict[str
                 ctx.reach("reconf.with-security-level-set")
             if m.last_sa is not None:
                 ctx.reach("reconf.with-seed-outstanding")
+            if bystanders is not None:
+                assigned = assigned or how == "assign"
+                if not assigned:
+                    in_place = sorted(off_now)
+                beside = {"server_seed": cfg["server_seed"], "rp": cfg["rp"], "off": cfg.get("off"), "constructed": cfg.get("constructed"),
+                          "how": how, "off_now": sorted(off_now), "written_in_place": in_place, "reconfigurations": reconfs}
+                if reconfs == 1:
+                    # an ECU that is only created after another one was reconfigured
+                    bystanders.append(await new_bystander(f"{cfg['server_seed']}-late", cfg["rp"], "omitted-late"))
+                    ctx.reach("bystander.created-after-reconf")
+                if cfg.get("constructed") == "omitted" and not assigned and changed and any(b.kind.startswith("omitted") for b in bystanders):
+                    # the changed ECU still holds the Behavior object its constructor gave it, and so does a bystander
+                    ctx.reach("bystander.beside-omitted-ecu-changed-in-place")
+                await probe_bystanders(ctx, bystanders, beside, dict(m.sw))
             continue
         if isinstance(q, tuple):  # ("PAUSE", seconds): the tester falls silent; > 10 s of inactivity reset the ECU state
             vecu.CLOCK.advance(q[1])
@@ -208,10 +341,14 @@ async def drive(ctx: Any, d: vecu.Driver, requests: Any, tag: str, cfg: dict[str
         except Exception as e:
             ctx.violation(f"raises/{type(e).__name__}/{tag}", f"virtual ECU raises {type(e).__name__} while answering a request", {**cfg, "history": tail(), "request": q, "error": repr(e)})
             return False
-        pre = copy.copy(m) if live and m.sw != sw0 else None  # model state before this request (for the reach attribution below)
+        pre = copy.copy(m) if (live and m.sw != sw0) or (contrast_sw is not None and contrast_sw != m.sw) else None  # model state before this request (for the reach attribution below)
         v = m.check(q, raw, reply)
         ctx.evals()
-        if pre is not None:
+        if pre is not None and contrast_sw is not None:
+            # non-vacuity of the bystander probe: would the reconfigured ECU's switches decide this request by another rule?
+            if rule_under(pre, contrast_sw, q, raw, reply) != v.rule:
+                ctx.reach("bystander.decided-differently-than-reconfigured-ecu")
+        elif pre is not None:
             # non-vacuity of the live reconfiguration: is this request decided by another rule than under the setting the ECU
             # was constructed with, and which of the changed switches makes the difference?  (reach counters only, no verdict)
             ctx.reach("reconf.requests-under-changed-setting")
@@ -251,9 +388,24 @@ async def drive(ctx: Any, d: vecu.Driver, requests: Any, tag: str, cfg: dict[str
             ctx.reach("state.non-default-session")
         if m.sec is not None:
             ctx.reach("state.security-level-set")
-        if m.S not in m.M:
-            # outside the model (only possible with the sub-function rule switched off): stop this history
+        if q[0] == 0x10 and v.rule.startswith("5:session-change") and not m.sw["sub_function_not_supported"] and before[0] in m.M:
+            sf = q[1] & 0x7F
+            if sf not in m.M:
+                ctx.reach("edge.dsc-to-session-absent-from-model")
+                ctx.reach("edge.dsc-absent:" + ("suppress-bit" if q[1] & 0x80 else "answered"))
+                if before[0] != 1:
+                    ctx.reach("edge.dsc-absent.from-non-default-session")
+                if live:
+                    ctx.reach("edge.dsc-absent.live")
+            elif sf not in (m.M[before[0]].get(0x10) or []):
+                ctx.reach("edge.dsc-to-unoffered-session-of-model")
+        if outside:
+            ctx.reach("edge.dsc-absent.read-back")
             return True
+        if m.S not in m.M:
+            # outside the model (only possible with the sub-function rule switched off): this exchange and the state after it were
+            # judged; what follows is at most the read-back (see the loop head)
+            outside = True
     return True
 
 
@@ -281,10 +433,36 @@ def history(ctx: Any, d: vecu.Driver, n: int, restrict_dsc: bool) -> Any:
             yield ("PAUSE", rng.choice([3.0, 30.0, 600.0]))
             last_seed = None if m.last_sa is None else last_seed
         q = vecu.gen_request(rng, m, last_seed)
-        if (restrict_dsc or not m.sw["sub_function_not_supported"]) and q[0] == 0x10 and len(q) >= 2 and (q[1] & 0x7F) not in (m.M.get(m.S, {}).get(0x10) or []):
+        if (restrict_dsc or not m.sw["sub_function_not_supported"]) and q[0] == 0x10 and len(q) >= 2 and (q[1] & 0x7F) not in m.M:
+            # without rule 3 a session change to ANY session of the model is in the middle of a history (also one the active session
+            # does not offer); one to a session id outside the model ends a history (edge_session)
             continue
         yield q
         last_seed = (m.last_sa[0], m.last_sa[1]) if m.last_sa is not None and m.last_sa[1] is not vecu.UNKNOWN else None
+
+
+def edge_session(ctx: Any, d: vecu.Driver) -> Any:
+    """end of a history under a switch subset without rule 3: "disabling one behaviour only removes that rule", so rule 5 answers a
+    session change to ANY session id, and the session state changes on that positive reply - also for an id at the edge of the
+    model: a session of the model that the active session does not offer (history goes on), then an id the model does not contain
+    at all, with or without suppress bit; drive() judges reply and state, allows the read-back, and ends the history there"""
+    rng = ctx.rng
+    m = d.model
+    assert m is not None
+    if m.sw["sub_function_not_supported"] or m.S not in m.M:
+        return
+    elsewhere = [s for s in (m.M[m.S].get(0x10) or []) if s != 1 and s in m.M]
+    if m.S == 1 and elsewhere and rng.random() < 0.5:
+        yield bytes([0x10, rng.choice(elsewhere)])  # so that the edge is also met from a non-default session
+    unoffered = [s for s in sorted(m.M) if s != m.S and s not in (m.M.get(m.S, {}).get(0x10) or [])]
+    if unoffered and rng.random() < 0.8:
+        yield bytes([0x10, rng.choice(unoffered) | rng.choice([0, 0, 0x80])])
+        yield READ_BACK
+    if m.S not in m.M:
+        return
+    absent = [s for s in range(0x80) if s not in m.M]
+    yield bytes([0x10, rng.choice(absent[:4] + absent[-2:] if rng.random() < 0.3 else absent) | rng.choice([0, 0, 0x80])])
+    yield READ_BACK
 
 
 def sweep(ctx: Any, len3: int) -> Any:
@@ -314,6 +492,10 @@ def probes(ctx: Any, d: vecu.Driver, two_byte: int) -> Any:
         yield q
     if offered_dsc():
         yield bytes([0x10, rng.choice(offered_dsc()) | rng.choice([0, 0, 0x80])])
+    unoffered = [s for s in sorted(m.M) if s != m.S and s not in offered_dsc()]
+    if not m.sw["sub_function_not_supported"] and unoffered and rng.random() < 0.5:
+        # without rule 3: a session of the model that the active session does not offer
+        yield bytes([0x10, rng.choice(unoffered) | rng.choice([0, 0, 0x80])])
     for q in fixed:
         yield q
     one = [bytes([s]) for s in range(256)]
@@ -343,18 +525,28 @@ def next_subset(rng: Any, cur: frozenset[str], off0: frozenset[str]) -> frozense
     return frozenset(nxt) if nxt != cur else cur ^ {rng.choice(vecu.SWITCHES)}
 
 
-def live_history(ctx: Any, d: vecu.Driver, off0: frozenset[str], segments: int, seglen: int, two_byte: int) -> Any:
-    """one ECU object used under a sequence of switch subsets: history, then (reconfigure, probes, history) x segments"""
+def live_history(ctx: Any, d: vecu.Driver, off0: frozenset[str], segments: int, seglen: int, two_byte: int, in_place_first: int = 0) -> Any:
+    """one ECU object used under a sequence of switch subsets: history, then (reconfigure, probes, history) x segments;
+    the first `in_place_first` changes are written on the Behavior object the ECU got at construction (afterwards either way)"""
     rng = ctx.rng
     cur = off0
     yield from history(ctx, d, seglen, False)
-    for _ in range(segments):
+    for n in range(segments):
         if ctx.out_of_time():
             return
         cur = next_subset(rng, cur, off0)
-        yield ("RECONF", rng.choice(RECONF_HOW), cur)
+        yield ("RECONF", "flip" if n < in_place_first else rng.choice(RECONF_HOW), cur)
         yield from probes(ctx, d, two_byte)
         yield from history(ctx, d, seglen, False)
+    if ctx.out_of_time():
+        return
+    # last act of every live ECU: rule 3 goes off (rule 5 on; rule 1 and the session read either way), then the edge of the model
+    end = (cur | {RULE3}) - {"default_response_if_session_change"}
+    if rng.random() < 0.5:
+        end = (end | {RULE1}) - {"default_response_if_session_read"}
+    if end != cur:
+        yield ("RECONF", rng.choice(RECONF_HOW), end)
+    yield from edge_session(ctx, d)
 
 
 async def arun(ctx: Any, params: dict[str, Any]) -> None:
@@ -369,12 +561,18 @@ async def arun(ctx: Any, params: dict[str, Any]) -> None:
                 frozenset(k for k in vecu.SWITCHES if rng.random() < 0.5)
             rp = rng.randrange(len(vecu.PARAM_SETS))
             sseed = f"{params['base']}-{i}"
-            cfg = {"server_seed": sseed, "rp": rp, "off": sorted(off0), "live": True}
-            d = vecu.Driver(sseed, vecu.PARAM_SETS[rp], vecu.all_switches(off0))
+            # every other ECU with the defaults is constructed without a behaviour argument at all (the constructor's own defaults)
+            construct = "omitted" if kind == "defaults" and i % 6 == 0 else "vecu"
+            cfg = {"server_seed": sseed, "rp": rp, "off": sorted(off0), "live": True, "constructed": construct}
+            d = make_driver(sseed, vecu.PARAM_SETS[rp], vecu.all_switches(off0), construct)
             await d.setup()
             ctx.reach("reconf.servers")
             ctx.reach(f"reconf.constructed-with:{kind}")
-            await drive(ctx, d, live_history(ctx, d, off0, params["segments"], params["seglen"], params["two_byte"]), subset_tag(off0), cfg)
+            # two more ECUs live beside it for all of its history - one constructed without behaviour argument, one with a Behavior
+            # object of its own - with their own models; nobody touches their switches
+            bystanders = [await new_bystander(f"{sseed}-by{j}", rng.randrange(len(vecu.PARAM_SETS)), k) for j, k in enumerate(("omitted", "own-object"))]
+            await drive(ctx, d, live_history(ctx, d, off0, params["segments"], params["seglen"], params["two_byte"],
+                                                in_place_first=(params["segments"] + 1) // 2 if construct == "omitted" else 0), subset_tag(off0), cfg, bystanders)
         return
     if params["mode"] == "sweep":
         cfg = {"server_seed": params["server_seed"], "rp": params["rp"], "off": []}
@@ -422,7 +620,7 @@ async def arun(ctx: Any, params: dict[str, Any]) -> None:
         elif len(off) > 1:
             ctx.reach("switch-subsets")
         restrict = "default_response_if_sub_function_not_supported" in off
-        await drive(ctx, d, history(ctx, d, params["length"], restrict), tag, cfg)
+        await drive(ctx, d, itertools.chain(history(ctx, d, params["length"], restrict), edge_session(ctx, d)), tag, cfg)
         if off and not ctx.out_of_time():
             # the short requests under this switch setting (one byte exhaustively, two bytes sampled)
             d2 = vecu.Driver(sseed, vecu.PARAM_SETS[rp], vecu.all_switches(off))
@@ -432,7 +630,7 @@ async def arun(ctx: Any, params: dict[str, Any]) -> None:
                 m2 = d2.model
                 assert m2 is not None
                 short = [q for q in short if not (q[0] == 0x10 and len(q) == 2)]
-            await drive(ctx, d2, short, tag, cfg)
+            await drive(ctx, d2, itertools.chain(short, edge_session(ctx, d2)), tag, cfg)
 
 
 def bfs(M: dict[int, dict[int, list[int] | None]], src: int, dst: int) -> list[int] | None:
@@ -464,7 +662,25 @@ def replay(ctx: Any, witness: dict[str, Any]) -> None:
 
     async def go() -> None:
         off = frozenset(witness.get("off", []))
-        d = vecu.Driver(witness["server_seed"], vecu.PARAM_SETS[witness["rp"]], vecu.all_switches(off))
+        beside = witness.get("beside")
+        if witness.get("bystander") and beside:
+            # an untouched ECU beside a reconfigured one: build both, bring the other one from its construction-time subset to the
+            # subset it had at the time (one step), then replay the bystander's own requests
+            boff = frozenset(beside.get("off") or [])
+            main = make_driver(beside["server_seed"], vecu.PARAM_SETS[beside["rp"]], vecu.all_switches(boff), beside.get("constructed") or "vecu")
+            await main.setup()
+            late = witness["bystander"] == "omitted-late"
+            by = None if late else await new_bystander(witness["server_seed"], witness["rp"], witness["bystander"])
+            cur = boff
+            if beside.get("written_in_place") is not None:
+                reconfigure(main, "flip", cur, frozenset(beside["written_in_place"]))
+                cur = frozenset(beside["written_in_place"])
+            if cur != frozenset(beside["off_now"]):
+                reconfigure(main, "assign", cur, frozenset(beside["off_now"]))
+            by = by or await new_bystander(witness["server_seed"], witness["rp"], witness["bystander"])
+            await drive(ctx, by.d, [ux(h) for h in witness.get("history", []) if not ux(h).startswith(b"\x00")], "replay", {**by.cfg, "beside": beside})
+            return
+        d = make_driver(witness["server_seed"], vecu.PARAM_SETS[witness["rp"]], vecu.all_switches(off), witness.get("constructed") or "vecu")
         await d.setup()
         cfg = {"server_seed": witness["server_seed"], "rp": witness["rp"], "off": sorted(off), "live": bool(witness.get("live"))}
 
